@@ -139,7 +139,7 @@ func (g *Gen) proveLemma(l *LemmaDecl, dir string, timeout time.Duration) *Lemma
 		st := &State{reach: "true", cells: map[*ssa.Alloc]Val{}, heap: map[string]string{}}
 		f.heapGet(st, "alloc", "(Array Int Bool)")
 		f.entryState = st
-		env := &Env{f: f, st: st, old: st, vars: map[string]Val{}, vtypes: map[string]types.Type{}}
+		env := &Env{f: f, st: st, old: st, vars: map[string]Val{}, vtypes: map[string]types.Type{}, pkg: g.pkgByPath(pd.Pkg)}
 		for _, p := range pd.Params {
 			t, err := env.typeExpr(p.TypeExpr)
 			if err != nil {
